@@ -151,7 +151,7 @@ func TestEncodeRoundTrip(t *testing.T) {
 			return bytesCase{Data: h.Bytes(t, "d", 0, 200)}
 		},
 		Check: checkEncode, Require: []string{"bytes", "empty"},
-		Rule:  "byte strings of length 0..200: encode (both codecs, trit and tryte form) = reference, decode returns the input; non-trivial = >= 2 bytes; distinct by content",
+		Rule: "byte strings of length 0..200: encode (both codecs, trit and tryte form) = reference, decode returns the input; non-trivial = >= 2 bytes; distinct by content",
 	})
 }
 
